@@ -55,7 +55,7 @@ class GTr:
             return rs2v.RESERVED and (nm + '_' if nm in rs2v.RESERVED else nm)
         if k == 'un':
             if n.op in ('*', '&'): return self.e(n.a)
-            if n.op == '-': return '(- %s)' % self.e(n.a)
+            if n.op == '-': return '(- (%s))' % self.e(n.a)
             if n.op == '!': return '(negb %s)' % self.e(n.a)
         if k == 'bin':
             a = self.e(n.a); b = self.e(n.b)
@@ -70,7 +70,7 @@ class GTr:
             if m == 'value': return x
             if m == 'unwrap_or': return x
             if m == 'square': return '(%s * %s)' % (x, x)
-            if m == 'negate': return '(- %s)' % x
+            if m == 'negate': return '(- (%s))' % x
             if m == 'inverse':
                 self.pre.append('negb (feqb %s 0)' % x); return '(inv %s)' % x
             if m == 'is_eq':
@@ -83,8 +83,9 @@ class GTr:
             if m == 'is_nonnegative': return '(negb (neg %s))' % x
             if m == 'abs': return '(gabs neg %s)' % x
             if m == 'isqrt':
-                self.pre.append('isqrt_sat zeta %s hint_ws hint_y' % x)
-                return '(hint_ws, hint_y)'
+                # a nested call of the (generated) isqrt gadget on this gadget's hint pair
+                self.pre.append('fst (isqrt_gen %s hint_ws hint_y)' % x)
+                return '(snd (isqrt_gen %s hint_ws hint_y))' % x
             raise TranslationError('gadget method .%s()' % m)
         if k == 'call':
             f = n.f
@@ -96,7 +97,10 @@ class GTr:
             if f in ('Boolean::new_witness', 'FqVar::new_witness'): return self.e(n.args[1])
             if f == 'FqVar::conditionally_select':
                 c, a, b = [self.e(x) for x in n.args]; return '(if %s then %s else %s)' % (c, a, b)
-            if f in ('Fq::sqrt_ratio_zeta',): return '(hint_ws, hint_y)'
+            if f in ('Fq::sqrt_ratio_zeta',):
+                if self.cfg.get('const_mode'): return '(sr %s %s)' % (self.e(n.args[0]), self.e(n.args[1]))
+                return '(hint_ws, hint_y)'
+            if f in ('Boolean::constant',): return self.e(n.args[0])
             if f == 'Fq::from' and n.args[0].k == 'int': return '(fofZ %d)' % n.args[0].v
             if f in ('AffineVar::new',): return '(%s, %s)' % (self.e(n.args[0]), self.e(n.args[1]))
             raise TranslationError('gadget call %s' % f)
@@ -134,6 +138,10 @@ class GTr:
             rhs = self.e(s.rhs) if s.op == '=' else self.e(N('bin', op=s.op[:-1], a=s.lhs, b=s.rhs))
             pre = self.flush()
             return pre + 'let %s := %s in\n    %s' % (v, rhs, self.stmts(rest))
+        if s.k == 'return':
+            if rest: raise TranslationError('statements after return')
+            v = self.e(s.e); pre = self.flush()
+            return pre + '(sat, %s)' % v
         if s.k == 'exprstmt':
             e = s.e
             inner = e.e if e.k == 'try' else e
@@ -166,12 +174,26 @@ Section GeneratedGadgets.
   Context {AF : AField}.
   Variables (cA cD zeta : F).
   Variable neg : F -> bool.
+  Variable sr : F -> F -> bool * F.
   Local Notation "0" := zero. Local Notation "1" := one.
   Local Infix "+" := add. Local Infix "*" := mul. Local Infix "-" := sub.
   Local Notation "- x" := (opp x).
-  Local Notation isqrt_sat := (@isqrt_sat AF).
   Local Notation gabs := (@gabs AF).
 '''
+
+def split_constant_path(body):
+    """`if let FqVar::Constant(x) = self { BLOCK }` at the top of a gadget: the fast path for constant inputs.  Returns
+    (name of x, BLOCK, body without the if-let) or (None, None, body)."""
+    m = re.search(r'\bif\s+let\s+FqVar::Constant\(\s*(\w+)\s*\)\s*=\s*self\s*\{', body)
+    if not m: return None, None, body
+    i = m.end() - 1; d = 0; k = i
+    while k < len(body):
+        if body[k] == '{': d += 1
+        elif body[k] == '}':
+            d -= 1
+            if d == 0: break
+        k += 1
+    return m.group(1), body[i + 1:k], body[:m.start()] + body[k + 1:]
 
 def parse_with_hooks_skipped(body):
     # drop statements guarded by #[cfg(decaf377_verif)]
@@ -185,6 +207,12 @@ def main(outdir):
             src = strip_comments(open(os.path.join(REPO, path)).read())
             src = re.split(r'#\[cfg\((?:all\()?test', src)[0]
             _, body = find_fn(src, fn, hint)
+            cvar, cblock, body = split_constant_path(body)
+            if cvar is not None:
+                # the constant-input fast path is translated on its own (no hints: the value is computed out of circuit)
+                gc = GTr({'consts': CONSTS, 'const_mode': True})
+                cval = gc.stmts(parse_body(cblock))
+                parts.append('  Definition %s_const (%s : F) : bool * (bool * F) :=\n    let sat := true in\n    %s.\n' % (name, cvar, cval))
             ast = parse_with_hooks_skipped(body)
             g = GTr({'consts': CONSTS})
             val = g.stmts(ast)
